@@ -195,6 +195,37 @@ def eval_case(case) -> Outcome:
         if json.dumps(dump, sort_keys=True, default=str) != json.dumps(d2, sort_keys=True, default=str):
             diff = next((p for (p, v), (p2, v2) in zip(walk_numbers(dump), walk_numbers(d2)) if v != v2 and not (v != v and v2 != v2)), "structure")
             out.fail("C14.repeat", f"the second identical call returned a different result (first difference at {diff})")
+    # --- repeated with the very same payload object (a caller keeping its request around): plain dictionary, dictionary
+    #     whose streams / utilities / zone tree are already schema objects (the README form), or a validated model
+    reuse = case.get("reuse")
+    if reuse:
+        from OpenPinch.lib.schema import StreamSchema, TargetInput, UtilitySchema, ZoneTreeSchema
+        from OpenPinch.main import pinch_analysis_service
+
+        out.labels.add("reuse:" + reuse)
+        payload = copy.deepcopy({k: v for k, v in case.items() if k in ("streams", "utilities", "options", "zone_tree") and v is not None})
+        payload = S.apply_spelling(payload, case.get("spelling"))
+        okp = True
+        if reuse == "dict_of_models":
+            okp, built = call_sut(lambda: dict(payload, streams=[StreamSchema.model_validate(x) for x in payload["streams"]], utilities=[UtilitySchema.model_validate(x) for x in payload.get("utilities", [])], **({"zone_tree": ZoneTreeSchema.model_validate(payload["zone_tree"])} if payload.get("zone_tree") else {})))
+        elif reuse == "model":
+            okp, built = call_sut(TargetInput.model_validate, payload)
+        else:
+            built = payload
+        if not okp:
+            out.fail("C14.sut_exception:" + built, f"building the {reuse} payload raised {built}: {call_sut.last_message}")
+        else:
+            for k in (1, 2):
+                S.clear_graph_accumulator()
+                okr, r = call_sut(pinch_analysis_service, built, "Site")
+                if not okr:
+                    out.fail("C14.repeat_same_object", f"call {k} with the same {reuse} payload object raised {r}: {call_sut.last_message}")
+                    break
+                dk = r.model_dump()
+                if json.dumps(dump, sort_keys=True, default=str) != json.dumps(dk, sort_keys=True, default=str):
+                    diff = next((p for (p, v), (p2, v2) in zip(walk_numbers(dump), walk_numbers(dk)) if v != v2 and not (v != v and v2 != v2)), "structure")
+                    out.fail("C14.repeat_same_object", f"call {k} with the same {reuse} payload object differs from the first result (first difference at {diff})")
+                    break
     return out
 
 
@@ -266,6 +297,8 @@ def wide_problem(draw, tier, hp=False):
             opts[k] = draw(num[k])
     if opts:
         case["options"] = opts
+    if not hp:
+        case["reuse"] = draw(st.sampled_from([None, None, None, "dict", "dict_of_models", "model"]))
     if draw(st.integers(0, 5)) == 0 and not hp:
         # small explicit tree: every label is a leaf under the root
         labels = sorted({s["zone"] for s in case["streams"]})
